@@ -21,11 +21,12 @@ Qed.
 
 Section Loop.
 Variable cache : gop_cache label.
-Variable key : bool.
+Variable key hdr : bool.
+Variable lc : label.
 
 (* visiting c calls MergeWriter.Flush() *)
 Definition trig (c : consumer) : bool :=
-  is_rtmp c && negb (admitted c) && snd (rtmp_visit cache key c).
+  is_rtmp c && negb (admitted c) && snd (rtmp_visit cache key hdr lc c).
 
 Definition anytrig (l : list consumer) : bool := existsb trig l.
 
@@ -33,18 +34,23 @@ Definition anytrig (l : list consumer) : bool := existsb trig l.
    ([pend]) and what the flush of this loop delivers ([x]) *)
 Definition fin (pend x : list label) (c : consumer) : consumer :=
   if is_rtmp c then
-    if admitted c then c_append c (pend ++ x) else fst (rtmp_visit cache key c)
+    if admitted c then c_append c (pend ++ x) else fst (rtmp_visit cache key hdr lc c)
   else c.
 
-Lemma rtmp_visit_noflush c0 c1 : rtmp_visit cache key c0 = (c1, false) -> c1 = c0.
+(* a visit that does not flush leaves the session as it was, except that a
+   waiting session may have been handed the header message *)
+Lemma rtmp_visit_noflush c0 c1 : rtmp_visit cache key hdr lc c0 = (c1, false) ->
+  c1 = c0 \/ (c1 = c_append c0 [lc] /\ c_wait c0 = true).
 Proof.
   unfold rtmp_visit. destruct (c_fresh c0).
-  - destruct (c_wait _ && key); intro H; inversion H.
-  - destruct (c_wait c0 && key); intro H; inversion H. reflexivity.
+  - destruct (c_wait _ && key); [intro H; inversion H|]. destruct (c_wait _ && hdr); intro H; inversion H.
+  - destruct (c_wait c0 && key); [intro H; inversion H|].
+    destruct (c_wait c0) eqn:Hw; cbn [andb]; [|intro H; inversion H; now left].
+    destruct hdr; intro H; inversion H; [right; split; reflexivity|now left].
 Qed.
 
 Lemma rtmp_loop_aux_spec : forall todo done merge pend,
-  rtmp_loop_aux cache key done todo merge pend =
+  rtmp_loop_aux cache key hdr lc done todo merge pend =
   let x := if anytrig todo then merge else [] in
   (rev (write_rtmp_admitted x done) ++ map (fin pend x) todo,
    if anytrig todo then [] else merge).
@@ -66,7 +72,7 @@ Proof.
       assert (Hk' : ckind_eqb (c_kind (c_append c0 pend)) KRtmp = true) by (destruct c0; exact Hk).
       assert (Ha' : admitted (c_append c0 pend) = true) by (destruct c0; exact Ha).
       rewrite Hk', Ha'. cbn [andb]. rewrite c_append_app, <- app_assoc. reflexivity.
-    + destruct (rtmp_visit cache key c0) as [c1 flushed] eqn:Hv.
+    + destruct (rtmp_visit cache key hdr lc c0) as [c1 flushed] eqn:Hv.
       assert (Hfin : fin pend (if trig c0 || anytrig rest then merge else []) c0 = c1).
       { unfold fin, is_rtmp. now rewrite Hk, Ha, Hv. }
       rewrite Hfin.
@@ -84,12 +90,13 @@ Proof.
         unfold write_rtmp_admitted at 1. cbn [map rev]. fold (write_rtmp_admitted (if anytrig rest then merge else []) done).
         (* a visited session that did not flush is still not admitted *)
         assert (Hna : ckind_eqb (c_kind c1) KRtmp && admitted c1 = false).
-        { rewrite (rtmp_visit_noflush _ _ Hv), Ha. apply Bool.andb_false_r. }
+        { destruct (rtmp_visit_noflush _ _ Hv) as [->|[-> Hw]]; [rewrite Ha; apply Bool.andb_false_r|].
+          unfold admitted, c_append. cbn [c_fresh c_wait]. rewrite Hw. cbn. now rewrite !Bool.andb_false_r. }
         rewrite Hna. rewrite <- app_assoc. reflexivity.
 Qed.
 
 Lemma rtmp_loop_spec subs merge :
-  rtmp_loop cache key subs merge =
+  rtmp_loop cache key hdr lc subs merge =
   (map (fin [] (if anytrig subs then merge else [])) subs, if anytrig subs then [] else merge).
 Proof. unfold rtmp_loop. rewrite rtmp_loop_aux_spec. reflexivity. Qed.
 
@@ -137,14 +144,14 @@ Lemma admitted_append c l : admitted (c_append c l) = admitted c. Proof. reflexi
 Ltac csimp := rewrite ?c_kind_append, ?c_kind_set, ?c_id_append, ?c_id_set, ?c_fresh_append, ?c_wait_append,
   ?c_out_append, ?c_fresh_set, ?c_wait_set, ?c_out_set, ?admitted_append.
 
-Lemma rtmp_visit_id cache key c : c_id (fst (rtmp_visit cache key c)) = c_id c.
+Lemma rtmp_visit_id cache key hdr lc c : c_id (fst (rtmp_visit cache key hdr lc c)) = c_id c.
 Proof.
   unfold rtmp_visit. destruct (c_fresh c); cbn [fst snd].
-  - match goal with |- context [if ?b then _ else _] => destruct b end; reflexivity.
-  - destruct (c_wait c && key); reflexivity.
+  - repeat match goal with |- context [if ?b && ?k then _ else _] => destruct (b && k) end; reflexivity.
+  - destruct (c_wait c && key); [reflexivity|]. destruct (c_wait c && hdr); reflexivity.
 Qed.
 
-Lemma fin_id cache key pend x c : c_id (fin cache key pend x c) = c_id c.
+Lemma fin_id cache key hdr lc pend x c : c_id (fin cache key hdr lc pend x c) = c_id c.
 Proof.
   unfold fin. destruct (is_rtmp c); [|reflexivity].
   destruct (admitted c); [reflexivity|apply rtmp_visit_id].
@@ -160,13 +167,13 @@ Proof.
   destruct (c_fresh c); reflexivity.
 Qed.
 
-Lemma flv_step_id cache key lt c : c_id (flv_step cache key lt c) = c_id c.
+Lemma flv_step_id cache key hdr lt c : c_id (flv_step cache key hdr lt c) = c_id c.
 Proof.
   unfold flv_step. destruct (negb (ckind_eqb (c_kind c) KFlv)); [reflexivity|].
   destruct (c_fresh c); cbn.
   - match goal with |- context [if (if ?a then _ else _) then _ else _] => destruct a end;
-      cbn; try destruct (c_wait c); try destruct key; reflexivity.
-  - destruct (c_wait c); [destruct key|]; reflexivity.
+      cbn; try destruct (c_wait c); try destruct key; try destruct hdr; reflexivity.
+  - destruct (c_wait c); [destruct key; [|destruct hdr]|]; reflexivity.
 Qed.
 
 Lemma ts_step_id cache pat b lt c : c_id (ts_step cache pat b lt c) = c_id c.
@@ -229,16 +236,21 @@ Proof. unfold admitted. destruct (c_fresh c), (c_wait c); cbn; intuition discrim
 Lemma find_idp_some id l c : find (idp id) l = Some c -> In c l /\ c_id c = id.
 Proof. intro H. apply find_some in H. destruct H as [H1 H2]. split; [exact H1|]. now apply N.eqb_eq. Qed.
 
-Lemma has_kind_map_fin cache key pend x l c :
-  In c l -> c_kind c = KRtmp -> has_kind KRtmp (map (fin cache key pend x) l) = true.
+Lemma rtmp_visit_kind cache key hdr lc c : c_kind (fst (rtmp_visit cache key hdr lc c)) = c_kind c.
+Proof.
+  unfold rtmp_visit. destruct (c_fresh c); cbn [fst snd].
+  - repeat match goal with |- context [if ?b && ?k then _ else _] => destruct (b && k) end; reflexivity.
+  - destruct (c_wait c && key); [reflexivity|]. destruct (c_wait c && hdr); reflexivity.
+Qed.
+
+Lemma has_kind_map_fin cache key hdr lc pend x l c :
+  In c l -> c_kind c = KRtmp -> has_kind KRtmp (map (fin cache key hdr lc pend x) l) = true.
 Proof.
   intros Hin Hk. unfold has_kind. apply existsb_exists.
-  exists (fin cache key pend x c). split; [now apply in_map|].
+  exists (fin cache key hdr lc pend x c). split; [now apply in_map|].
   unfold fin, is_rtmp. rewrite Hk. cbn.
   destruct (admitted c); [now rewrite c_kind_append, Hk|].
-  unfold rtmp_visit. destruct (c_fresh c); cbn.
-  - match goal with |- context [if ?b then (_, _) else _] => destruct b end; cbn; now rewrite Hk.
-  - destruct (c_wait c && key); cbn; now rewrite Hk.
+  now rewrite rtmp_visit_kind, Hk.
 Qed.
 
 Lemma publish_admitted cf s m id c :
@@ -252,19 +264,19 @@ Proof.
   destruct (admitted_flags _ Hadm) as [Hfr Hwt].
   destruct (find_idp_some _ _ _ Hfind) as [Hin Hid].
   unfold find_sub, publish. rewrite Hne. rewrite rtmp_loop_spec.
-  set (cache := g_rtmp_cache s). set (key := is_video_key_nalu m).
-  set (tr := anytrig cache key (g_subs s)).
+  set (cache := g_rtmp_cache s). set (key := is_video_key_nalu m). set (hdr := is_hdr_msg m). set (lc := LC (g_next s)).
+  set (tr := anytrig cache key hdr lc (g_subs s)).
   set (x := if tr then g_merge s else []).
   set (merge1 := if tr then [] else g_merge s).
-  set (subs1 := map (fin cache key [] x) (g_subs s)).
+  set (subs1 := map (fin cache key hdr lc [] x) (g_subs s)).
   assert (Hxm : x ++ merge1 = g_merge s).
   { unfold x, merge1. destruct tr; [apply app_nil_r|reflexivity]. }
   (* the consumer after the admission loop *)
-  assert (Hf1 : find (idp id) subs1 = Some (fin cache key [] x c)).
+  assert (Hf1 : find (idp id) subs1 = Some (fin cache key hdr lc [] x c)).
   { unfold subs1. rewrite find_map_id by (intro; apply fin_id). unfold find_sub in Hfind. now rewrite Hfind. }
   destruct (c_kind c) eqn:Hk; [| | |congruence|congruence].
   - (* RTMP subscriber *)
-    assert (Hfin : fin cache key [] x c = c_append c x).
+    assert (Hfin : fin cache key hdr lc [] x c = c_append c x).
     { unfold fin, is_rtmp. now rewrite Hk, Hadm. }
     assert (Hhk : has_kind KRtmp subs1 = true) by (eapply has_kind_map_fin; eassumption).
     rewrite Hhk.
@@ -304,11 +316,11 @@ Proof.
         unfold vout, pending_for, is_rtmp. csimp. rewrite Hk, Hadm. cbn [ckind_eqb andb g_merge].
         rewrite <- Hxm. now rewrite !app_assoc.
   - (* HTTP-FLV subscriber: untouched by the RTMP loop and the merge writer *)
-    assert (Hfin : fin cache key [] x c = c).
+    assert (Hfin : fin cache key hdr lc [] x c = c).
     { unfold fin, is_rtmp. now rewrite Hk. }
     assert (Hres : forall subs2,
       find (idp id) subs2 = Some c ->
-      exists c', find (idp id) (map (flv_step (g_flv_cache s) key (LT (g_next s)))
+      exists c', find (idp id) (map (flv_step (g_flv_cache s) key hdr (LT (g_next s)))
                            (map (push_step cache (lcw m (g_next s))) subs2)) = Some c' /\
                  c_kind c' = KFlv /\ admitted c' = true /\ c_out c' = c_out c ++ [LT (g_next s)]).
     { intros subs2 Hf2.
@@ -324,17 +336,17 @@ Proof.
     destruct (has_kind KRtmp subs1); [destruct (cf_merge cf =? 0); [|destruct (cf_merge cf <=? _)]|];
       cbn [g_subs g_merge];
       (match goal with
-       | |- context [map (flv_step _ _ _) (map (push_step _ _) ?S2)] =>
+       | |- context [map (flv_step _ _ _ _) (map (push_step _ _) ?S2)] =>
            destruct (Hres S2) as (c' & Hc1 & Hc2 & Hc3 & Hc4); [first [apply Hw|exact Hf1]|]
        end);
       exists c'; (split; [exact Hc1|]); (split; [exact Hc2|]); (split; [exact Hc3|]);
       unfold vout, pending_for, is_rtmp; rewrite Hc2, Hk; cbn [ckind_eqb andb]; now rewrite !app_nil_r, Hc4.
   - (* relay push *)
-    assert (Hfin : fin cache key [] x c = c).
+    assert (Hfin : fin cache key hdr lc [] x c = c).
     { unfold fin, is_rtmp. now rewrite Hk. }
     assert (Hres : forall subs2,
       find (idp id) subs2 = Some c ->
-      exists c', find (idp id) (map (flv_step (g_flv_cache s) key (LT (g_next s)))
+      exists c', find (idp id) (map (flv_step (g_flv_cache s) key hdr (LT (g_next s)))
                            (map (push_step cache (lcw m (g_next s))) subs2)) = Some c' /\
                  c_kind c' = KPush /\ admitted c' = true /\ c_out c' = c_out c ++ [lcw m (g_next s)]).
     { intros subs2 Hf2.
@@ -350,7 +362,7 @@ Proof.
     destruct (has_kind KRtmp subs1); [destruct (cf_merge cf =? 0); [|destruct (cf_merge cf <=? _)]|];
       cbn [g_subs g_merge];
       (match goal with
-       | |- context [map (flv_step _ _ _) (map (push_step _ _) ?S2)] =>
+       | |- context [map (flv_step _ _ _ _) (map (push_step _ _) ?S2)] =>
            destruct (Hres S2) as (c' & Hc1 & Hc2 & Hc3 & Hc4); [first [apply Hw|exact Hf1]|]
        end);
       exists c'; (split; [exact Hc1|]); (split; [exact Hc2|]); (split; [exact Hc3|]);
@@ -366,7 +378,7 @@ Proof.
   destruct e as [m|k id|id| | |b| |v|pid|raw|]; cbn [step].
   - unfold publish. destruct (Nat.eqb _ 0); [exact Hinv|].
     rewrite rtmp_loop_spec. rewrite Hinv.
-    assert (Hm1 : (if anytrig (g_rtmp_cache s) (is_video_key_nalu m) (g_subs s) then [] else @nil label) = [])
+    assert (Hm1 : (if anytrig (g_rtmp_cache s) (is_video_key_nalu m) (is_hdr_msg m) (LC (g_next s)) (g_subs s) then [] else @nil label) = [])
       by (now destruct (anytrig _ _ _)).
     rewrite Hm1. rewrite Hm0. cbn [N.eqb].
     destruct (has_kind KRtmp _); reflexivity.
@@ -546,10 +558,10 @@ Qed.
 (* ------------------------------------------------------------------ *)
 (* the order in which Go iterates over the subscriber set is irrelevant *)
 
-Lemma anytrig_perm cache key l l' : Permutation l l' -> anytrig cache key l = anytrig cache key l'.
+Lemma anytrig_perm cache key hdr lc l l' : Permutation l l' -> anytrig cache key hdr lc l = anytrig cache key hdr lc l'.
 Proof.
   intro H. unfold anytrig. induction H; cbn [existsb]; try congruence.
-  - destruct (trig cache key x), (trig cache key y); reflexivity.
+  - destruct (trig cache key hdr lc x), (trig cache key hdr lc y); reflexivity.
 Qed.
 
 Lemma has_kind_perm k l l' : Permutation l l' -> has_kind k l = has_kind k l'.
@@ -593,8 +605,8 @@ Proof.
   - unfold publish. rewrite <- H1. destruct (Nat.eqb _ 0).
     + unfold same_but_subs. cbn. repeat split; try assumption; congruence.
     + rewrite !rtmp_loop_spec. rewrite <- H4, <- H5, <- H8, <- H9, <- H10, <- H11, <- H12. rewrite <- ?H13, <- ?H16, <- ?H17.
-      rewrite <- (anytrig_perm _ _ _ _ Hp).
-      set (F1 := fin (g_rtmp_cache s) (is_video_key_nalu m) [] _).
+      rewrite <- (anytrig_perm _ _ _ _ _ _ Hp).
+      set (F1 := fin (g_rtmp_cache s) (is_video_key_nalu m) (is_hdr_msg m) (LC (g_next s)) [] _).
       assert (Hp1 : Permutation (map F1 (g_subs s)) (map F1 (g_subs s'))) by (now apply Permutation_map).
       rewrite <- (has_kind_perm _ _ _ Hp1).
       destruct (has_kind KRtmp _); [destruct (cf_merge cf =? 0); [|destruct (cf_merge cf <=? _)]|];
